@@ -101,8 +101,13 @@ def plan(rng, tier):
         elif cfg["impl"] == "c":
             ffault = "alloc"
     cfg["ffault"] = ffault
+    if cfg["dom"]["fam"][1] == "F" and rng.random() < 0.2:
+        cfg["dom"]["vnan"] = True       # NaN among the values
     dom = Domain(cfg["dom"])
     g = common.Gen(rng, dom, cfg["kind"])
+    # (a read that computes with the values: nothing may change, in memory
+    # or -- unannounced -- behind the database's back)
+    g.p_byvalue = 0.04
     out = []
     if pre:
         out.extend(g.fill(pre))
